@@ -198,7 +198,9 @@ CLAIMS = {
             "(mid-point queries at 1ulp distance are not generated)."),
 }
 
-TECHNIQUE = "Lean 4 machine-checked proof over a model of the code + differential correspondence of the model with /repo"
+TECHNIQUE = ("Lean 4 machine-checked proof over a model of the code; tie = translators (funfit.py, dataset tables, vector "
+             "arithmetic regenerated into Lean and proved equal to the model) + differential correspondence of the native "
+             "model driver with /repo")
 
 NOT_YET = {
 }
